@@ -84,7 +84,7 @@ func vcCmd(args []string) {
 			if *ssaDump {
 				fn.WriteTo(&b)
 			}
-			g := engine.HoudiniLocked(p, fn, engine.GenMode{Sweep: *sweep, Contracts: *contracts}, engine.SolveOpts{QuickMs: *ms, RaceMs: *ms * 3, OutDir: *keep}, stats, &mu)
+			g := engine.HoudiniLocked(p, fn, engine.GenMode{Sweep: *sweep, Contracts: *contracts}, engine.SolveOpts{QuickMs: *ms, RaceMs: *ms * 3, OutDir: *keep, Seed: envSeed()}, stats, &mu)
 			fmt.Fprintf(&b, "== %s: %d obligations\n", g.FnName(), len(g.Obls))
 			for _, u := range g.Unsupported {
 				fmt.Fprintln(&b, "   UNSUPPORTED:", u)
@@ -117,4 +117,11 @@ func vcCmd(args []string) {
 	for _, o := range outs {
 		fmt.Print(o)
 	}
+}
+
+// envSeed reads the solver seed from VERIF_SEED (0 when unset).
+func envSeed() int {
+	n := 0
+	fmt.Sscanf(os.Getenv("VERIF_SEED"), "%d", &n)
+	return n
 }
